@@ -28,6 +28,10 @@ run(ctx)
       vector call; one vector sky_within call of 2^20 + 4321 positions (thorough also 2^21 + 12345, degin) compared with the same
       positions in pieces of 2^17 + 13 and as scalars.  Bulk answers are screened with the Spec inequalities in numpy; every
       screened failure and a regular sample are judged by the Lean Spec.
+  2f. object protocol and scalar containers: after its queries every generated region goes through one of pickle (protocol 2 /
+      default), copy.deepcopy, copy.copy, Region.save + Region.load; the ORIGINAL and the COPY are then queried again with the same
+      positions and asked for their area, judged by the same Spec clauses (history build -> query -> pickle/copy -> query).
+      Scalar positions / circle parameters are passed as Python floats, numpy scalars and 0-d ndarrays in turn.
   3a. polygons straddling RA = 0 (4-8 vertices, circumcentre exactly on RA 0 at several decs) and centred exactly on both poles,
       regular and irregular, both vertex orders; add_poly raising on a polygon that healpy accepts with the model's arguments
       is a Spec failure (no region containing the interior is built).
@@ -301,7 +305,7 @@ def build_circle_region(case):
     form = case['form']
     with Spied() as spy:
         if form == 'scalar':
-            ra, dec, r = cs[0]
+            ra, dec, r = (as_scalar(x, case.get('scalar_type', 'float')) for x in cs[0])
             reg.add_circles(ra, dec, r, depth=case['depth'])
         elif form == 'sequential':
             for i, (ra, dec, r) in enumerate(cs):
@@ -322,7 +326,14 @@ def build_circle_region(case):
         else:
             reg.add_circles(ras, decs, rs, depth=case['depth'])
         calls = [c for c in spy.calls if c[0] != 'ang2pix'] + [('add_pixels', dict(depth=d)) for d in reg._c09_insert_depths]
+    unrecord_add_pixels(reg)
     return reg, calls
+
+
+def unrecord_add_pixels(reg):
+    """remove the instance-level wrapper again: the region must be an ordinary Region for pickle / copy"""
+    reg.__dict__.pop('add_pixels', None)
+    reg.__dict__.pop('_c09_insert_depths', None)
 
 
 def record_add_pixels(reg):
@@ -347,6 +358,7 @@ def build_poly_region(case):
     with Spied() as spy:
         reg.add_poly([list(p) for p in case['positions']], depth=case['depth'])
         calls = list(spy.calls) + [('add_pixels', dict(depth=d)) for d in reg._c09_insert_depths]
+    unrecord_add_pixels(reg)
     return reg, calls
 
 
@@ -361,12 +373,66 @@ def query_real(reg, pts, degin, form):
             out = [bool(x) for x in reg.sky_within(ras, decs, degin=degin)]
         else:
             out = []
-            for p in pts:
+            for i, p in enumerate(pts):
                 a, d = (math.degrees(p[0]), math.degrees(p[1])) if degin else (p[0], p[1])
+                # a scalar position as a Python float, a numpy scalar, or a 0-d ndarray (np.squeeze, np.asarray of a number)
+                a, d = (as_scalar(x, SCALAR_TYPES[i % len(SCALAR_TYPES)]) for x in (a, d))
                 res = reg.sky_within(a, d, degin=degin)
                 out.append(bool(np.ravel(res)[0]))
         calls = list(spy.calls)
     return out, calls
+
+
+SCALAR_TYPES = ('float', 'np.float64', '0d')
+
+
+def as_scalar(x, kind):
+    if kind == 'np.float64':
+        return np.float64(x)
+    if kind == '0d':
+        return np.array(float(x))
+    return float(x)
+
+
+PROTOCOLS = ('pickle2', 'deepcopy', 'save-load', 'copy', 'pickle-default')
+
+
+def apply_protocol(ctx, reg, proto):
+    """object protocol applied to a QUERIED region; returns the copy"""
+    import copy
+    import os
+    import pickle
+    from AegeanTools.regions import Region
+    if proto == 'pickle2':
+        return pickle.loads(pickle.dumps(reg, protocol=2))
+    if proto == 'pickle-default':
+        return pickle.loads(pickle.dumps(reg))
+    if proto == 'deepcopy':
+        return copy.deepcopy(reg)
+    if proto == 'copy':
+        return copy.copy(reg)
+    if proto == 'save-load':
+        fn = os.path.join(ctx.tmpdir(), f'region-{id(reg)}.mim')
+        reg.save(fn)
+        out = Region.load(fn)
+        os.unlink(fn)
+        return out
+    raise ValueError(proto)
+
+
+def protocol_queries(ctx, reg, case, pts, queries, areas):
+    """history: build -> query -> pickle / deepcopy / copy / save+load -> query.  Both the original and the copy are
+    queried again with the same positions (and asked for their area): judged by the same Spec clauses"""
+    proto = case.get('protocol')
+    if not proto:
+        return
+    reg2 = apply_protocol(ctx, reg, proto)
+    for who, rr in (('orig', reg), ('copy', reg2)):
+        got, qcalls = query_real(rr, pts, False, 'array')
+        queries.append((False, f'array:{who}-after-{proto}', pts, got, qcalls))
+        if areas is not None:
+            areas.append(('sr', float(rr.get_area(degrees=False))))
+    ctx.count('object protocol after queries: ' + proto)
 
 
 def depth_str(d):
@@ -516,6 +582,8 @@ def run_circle_case(ctx, case, pts, spec_only=False):
                     areas.append((u, float(reg.get_area(degrees=(u == 'deg')))))
         stage = 'sky_within'
         queries = query_all(reg, pts, spec_only, BAD_POINTS, BAD_POINTS[:2], 6)
+        stage = 'sky_within / get_area after ' + str(case.get('protocol'))
+        protocol_queries(ctx, reg, case, pts + BAD_POINTS[:2], queries, areas if single else None)
     except ArgumentMutated as e:
         ctx.case(case_pub(case), ('mutated', case['id']))
         ctx.fail('spec', dict(case, observe='add_circles'), str(e), dict(sig_base, what='argument-mutated'))
@@ -594,7 +662,8 @@ def run_circle_case(ctx, case, pts, spec_only=False):
                 k = 1 if u == 'sr' else DEG2
                 ctx.fail('spec', dict(case, observe='get_area', unit=u, area=v),
                          f"get_area(degrees={u == 'deg'}) = {v!r} {'sr' if u == 'sr' else 'deg^2'} not between cap(r)={cap_area(cs[0][2]) * k!r} and "
-                         f"cap(r+3pix)={cap_area(cs[0][2] + 3 * pix) * k!r} (calls on this region, in order: {case.get('area_order', ['sr', 'deg'])})",
+                         f"cap(r+3pix)={cap_area(cs[0][2] + 3 * pix) * k!r} (get_area calls in order: {case.get('area_order', ['sr', 'deg'])}, then once more on the original and on the copy after "
+                         f"the region was queried and went through {case.get('protocol')})",
                          dict(sig_base, what='area-between-caps', unit=u))
             elif not spec_only and not common.close(vsr, len(dsets[0]) * pa, rel=1e-9):
                 ctx.fail('corr', case, f'get_area({u})={v!r}, model N*pixArea={len(dsets[0]) * pa * (1 if u == "sr" else DEG2)!r} (N={len(dsets[0])})',
@@ -731,6 +800,8 @@ def run_poly_case(ctx, case, pts, spec_only=False):
         return
     try:
         queries = [] if err else query_all(reg, pts, spec_only, BAD_POINTS[:3], [], 5)
+        if not err and pts:
+            protocol_queries(ctx, reg, case, pts, queries, None)
     except Exception as e:
         ctx.case(case_pub(case), ('raise', case['id']))
         ctx.fail('spec', dict(case, observe='sky_within'), f'sky_within raised {type(e).__name__}: {e} on valid positions',
@@ -1122,6 +1193,8 @@ def make_circle_case(ctx, k, budget):
     case = dict(kind='circle', id=f'c{k}', maxdepth=m, depth=darg, deff=deff, circles=circles, form=form, centre_class=cls)
     if len(circles) == 1:
         case['area_order'] = AREA_ORDERS[(k // 2) % len(AREA_ORDERS)]
+    case['protocol'] = PROTOCOLS[k % len(PROTOCOLS)]
+    case['scalar_type'] = SCALAR_TYPES[(k // 3) % len(SCALAR_TYPES)]
     return case
 
 
@@ -1133,7 +1206,7 @@ def make_poly_case(ctx, k, budget):
     nv = 3 + k % 6
     pos = gen_polygon(rng, rac, decc, R, nv)
     return dict(kind='polygon', id=f'p{k}', maxdepth=m, depth=darg, deff=deff, positions=[list(p) for p in pos],
-                circum=[rac, decc, R], centre_class=cls)
+                circum=[rac, decc, R], centre_class=cls, protocol=PROTOCOLS[(k + 2) % len(PROTOCOLS)])
 
 
 def malformed_cases():
@@ -1236,7 +1309,9 @@ def tip_cases(ctx, depths, npix, thorough):
                     ra, dec = vec2radec(v)
                     case = dict(kind='circle', id=f'tipA-{depth}-{p}-{f}-{r:.3e}', maxdepth=depth, depth=depth, deff=depth,
                                 circles=[(ra, dec, r)], form='scalar', centre_class='pixel-tip',
-                                area_order=AREA_ORDERS[len(out) % len(AREA_ORDERS)])
+                                area_order=AREA_ORDERS[len(out) % len(AREA_ORDERS)],
+                                protocol=(PROTOCOLS[len(out) % len(PROTOCOLS)] if len(out) % 4 == 0 else None),
+                                scalar_type=SCALAR_TYPES[len(out) % len(SCALAR_TYPES)])
                     pts = gen_points_circle(rng, ra, dec, r, pix, 3)
                     out.append((case, pts))
             # B: disc edge in the tip
